@@ -1,5 +1,6 @@
 import GenjaxModel.Proofs.Adev
 import GenjaxModel.Proofs.AdevProg
+import GenjaxModel.Proofs.AdevProgIO
 import Mathlib.Algebra.Field.Rat
 import Mathlib.Tactic.NormNum
 /-!
@@ -184,5 +185,60 @@ example : reinforceExpectedTangent (geomProbs (⟨1/3, 1⟩ : Dual Rat) 4) [⟨1
 
 end Compose
 /-! ## ===== END work package c11compose ===== -/
+
+/-! ## ===== BEGIN work package c11tie: the driver command `adev-prog` (whole programs run against the implementation) =====
+
+`Model/AdevProgIO.lean` gives the programs of `Model/AdevProg.lean` a concrete syntax (`PAst`: sites
+`flip <estimator> <term>` / `cat <estimator> <terms>`, `branch`, `ret <term>`; `ATerm`: arithmetic over θ,
+constants and earlier outcomes, evaluated in dual arithmetic).  The harness (`harness/adevprog.py`,
+`harness/props/c11.py: check_described`) generates the JAX program and the driver term from ONE
+description and compares every internal outcome path of `jvp_estimate` with `Prog.est`.  The theorems
+below say what the driver's answer means for EVERY program text. -/
+section Tie
+open Genjax.Smc.FinDist (E mass)
+
+/-- the flag `guards T` printed by the driver implies the guards `Prog.OK` of `C11_program_unbiased`
+    (every categorical site normalised, every REINFORCE outcome probability non-zero) -/
+theorem C11_driver_guards_sound (p : Prog Rat) (h : Prog.okB p = true) : p.OK :=
+  Prog.okB_sound p h
+
+/-- a program text without `branch`, read as a straight-line program of the model (`SProg`, a Jaxpr
+    without `cond`) and unfolded by `SProg.toProg`, is the outcome tree obtained from the text directly -/
+theorem C11_driver_straightline_reading (th : Dual Rat) (a : PAst Rat) (sp : SProg Rat)
+    (h : a.toSProg th = some sp) (outs : List Outcome) : sp.toProg outs = a.toProg th outs :=
+  PAst.toSProg_toProg th a sp h outs
+
+/-- THE DRIVER ANSWER IS AN UNBIASED ESTIMATOR: for every program text `a` and every θ, when the
+    driver answers `guards T`, the `est` entries (probability, value, tangent) it prints - the
+    distribution the harness compares with the implementation's enumeration, equal duals merged -
+    have total probability 1 and probability-weighted mean equal to the printed `exact` dual (the
+    true expectation and derivative, `Prog.exact`); the same for the unmerged `mean` / `mass`. -/
+theorem C11_driver_report_unbiased (θ : Rat) (a : PAst Rat) (h : (a.report θ).guards = true) :
+    wsum (fun v _ => v) (a.report θ).est = (a.report θ).exact.v ∧
+    wsum (fun _ d => d) (a.report θ).est = (a.report θ).exact.d ∧
+    wsum (fun _ _ => 1) (a.report θ).est = 1 ∧
+    (a.report θ).mean = (a.report θ).exact ∧ (a.report θ).mass = 1 :=
+  PAst.report_sound θ a h
+
+/-- non-vacuity / demo: the harness program `three:reinforce>cat3par>mvd` as a driver term - a
+    REINFORCE flip with parameter θ, categorical_enum_parallel over weights (θ, 1 or 2, 2 − θ) that depend
+    on the first outcome, flip_mvd whose parameter depends on the categorical index, result depending on
+    all three outcomes and non-linearly on θ -/
+def demoTie : PAst Rat :=
+  .flip .reinforce .theta <|
+  .cat .enumPar [.theta, .ite 0 (.const 1) (.const 2), .sub (.const 2) .theta] <|
+  .flip .mvd (.eqn 1 0 (.mul (.const (1/2)) .theta) (.eqn 1 1 .theta (.sub (.const 1) .theta))) <|
+  .ret (.add (.mul (.add (.out 1) (.ite 0 (.const 1) (.const 3))) (.ite 2 .theta (.mul .theta .theta))) (.out 0))
+
+/-- at θ = 1/4: the guards hold, the estimator has 16 outcome paths (2 REINFORCE outcomes × 2 MVD
+    outcomes in each of the 3 vectorised lanes), all with distinct duals, and its mean is the exact dual
+    (7113/8192, 7085/2048) -/
+example : (demoTie.report (1/4)).guards = true ∧ (demoTie.report (1/4)).paths = 16 ∧
+    (demoTie.report (1/4)).est.length = 16 ∧ (demoTie.report (1/4)).sprog = true ∧
+    (demoTie.report (1/4)).mean = (demoTie.report (1/4)).exact ∧
+    (demoTie.report (1/4)).exact = ⟨7113/8192, 7085/2048⟩ := by decide +kernel
+
+end Tie
+/-! ## ===== END work package c11tie ===== -/
 
 end Genjax.Adev
